@@ -33,6 +33,28 @@ def _z3_mentions(term, var):
     return False
 
 
+_ORD_CACHE = {}
+
+
+def loop_ordinal(fr, node):
+    """position of a loop / comprehension among the loops of its function, in source order
+    (stable under edits that only move lines)"""
+    root = fr.ifn.node if fr.ifn is not None else None
+    if root is None:
+        return (getattr(node, "lineno", 0), getattr(node, "col_offset", 0))
+    d = _ORD_CACHE.get(id(root))
+    if d is None:
+        d = {}
+        n = 0
+        loops = [x for x in ast.walk(root) if isinstance(x, (ast.For, ast.ListComp, ast.SetComp, ast.DictComp, ast.GeneratorExp))]
+        loops.sort(key=lambda x: (x.lineno, x.col_offset))
+        for i, x in enumerate(loops):
+            d[id(x)] = i
+        _ORD_CACHE[id(root)] = d
+        _ORD_CACHE[("keep", id(root))] = root
+    return d.get(id(node), (getattr(node, "lineno", 0), getattr(node, "col_offset", 0)))
+
+
 class Machine(Interp):
     # ==================================================================================
     # expressions
@@ -338,7 +360,7 @@ class Machine(Interp):
                 yield from body(cfr)
             return NORMAL
 
-        key = ("comp", node.lineno, node.col_offset, gi)
+        key = ("comp", fr.name.split(".")[-1], loop_ordinal(fr, node), gi)
         sig = yield from self.loop_over(key, gen.target, it, cfr, round_body)
         if sig is not None:
             raise Unsupported("control transfer out of a comprehension")
@@ -655,7 +677,7 @@ class Machine(Interp):
         def round_body():
             return (yield from self.exec_block(node.body, fr))
 
-        key = ("for", fr.name, node.lineno, node.col_offset)
+        key = ("for", fr.name.split(".")[-1], loop_ordinal(fr, node))
         sig = yield from self.loop_over(key, node.target, it, fr, round_body)
         if sig is BREAK:
             return NORMAL
